@@ -106,6 +106,19 @@ func run(e *core.Env) {
 	sessBC := B.State.GetSession(C.IP)
 	sessDA := D.State.GetSession(A.IP)
 
+	// A burst of signed frames in A's past: a router that signs faster than one frame per
+	// millisecond stamps each frame one millisecond after the previous one, so after a burst its
+	// stamps run ahead of the clock - by seconds after a few thousand frames (an announcement
+	// flood in a dense mesh). The burst is reproduced by taking that many stamps from the
+	// session's own sequence; the frame under test must round-trip all the same.
+	if tp.Chance(1, 8) {
+		n := []int{300, 2100, 5000, 12000}[tp.Intn(4)]
+		for i := 0; i < n; i++ {
+			_ = sessAB.Signing().Seq().Next()
+		}
+		e.Probe("signing_stamps_ahead_of_the_clock_after_a_burst")
+	}
+
 	// The session may have a past: in a quarter of the runs A has already sent B regular
 	// traffic with numbers that reach to shortly below the 32-bit wrap (no wrap happens, so
 	// no key change is due). The frame under test must round-trip all the same.
